@@ -49,7 +49,7 @@ def run_request(line: str) -> str | None:
     if cmd == "step":
         ops = []
         for t in toks[3:]:
-            if t in ("enroll", "flush"):
+            if t in ("enroll", "flush", "opts"):
                 ops.append((t,))
             elif t[:2] in ("t:", "q:"):
                 ops.append((t[0], tuple(parse_stmt(t[2:]))))
